@@ -37,6 +37,7 @@ def run_real(case, values):
 def run_model(T, case, values):
     mk = ConcMk(values)
     ctx = C.Ctx()
+    ctx.concrete_mode = True
     with C.activate(ctx):
         env = case.declare(mk)
         if not mk.ok:
